@@ -224,6 +224,36 @@ Qed.
 Lemma at_neg_neg l a : a < 0 -> at_neg l a = nth (Z.to_nat (a + zlen l)) l 0.
 Proof. intros H. unfold at_neg, neg_pos, znth. replace (a <? 0) with true by lia. now rewrite Z.add_comm. Qed.
 
+(* wrap_axis = NumPy's normalisation on the valid range *)
+Lemma wrap_axis_nonneg a d : 0 <= a -> wrap_axis a d = a.
+Proof. intros H. unfold wrap_axis. now replace (a <? 0) with false by lia. Qed.
+
+Lemma wrap_axis_np a d : - d <= a < d ->
+  exists k, np_axis a d = Some k /\ wrap_axis a d = Z.of_nat k /\ Z.of_nat k < d.
+Proof.
+  intros H. unfold wrap_axis. destruct (Z.ltb_spec a 0).
+  - rewrite np_axis_neg by lia. eexists. split; [reflexivity|]. split; lia.
+  - rewrite np_axis_nonneg by lia. eexists. split; [reflexivity|]. split; lia.
+Qed.
+
+Lemma map_at_k f l k : (k < length l)%nat -> map_at 0 (Z.of_nat k) f l = set_nth k (f (nth k l 0)) l.
+Proof.
+  intros Hk. rewrite map_at_spec by (unfold zlen; lia). now rewrite Z.sub_0_r, Nat2Z.id.
+Qed.
+
+Lemma np_axis_nonneg_inv a d k : 0 <= a < d -> np_axis a d = Some k -> k = Z.to_nat a.
+Proof. intros H E. rewrite np_axis_nonneg in E by assumption. now injection E. Qed.
+
+Lemma set_neg_norm l a v k : - zlen l <= a < zlen l -> np_axis a (zlen l) = Some k ->
+  set_neg l a v = set_nth k v l /\ at_neg l a = nth k l 0 /\ (k < length l)%nat.
+Proof.
+  intros Ha Hk. destruct (Z.ltb_spec a 0).
+  - rewrite np_axis_neg in Hk by lia. injection Hk as <-. rewrite set_neg_neg, at_neg_neg by lia.
+    repeat split. unfold zlen in *. lia.
+  - rewrite np_axis_nonneg in Hk by lia. injection Hk as <-. rewrite set_neg_nonneg, at_neg_nonneg by lia.
+    repeat split. unfold zlen in *. lia.
+Qed.
+
 (* flat rank (Horner) <-> compute_indices *)
 Lemma unrav_rank s k : pos s -> 0 <= k < prod s ->
   inb (compute_indices k s) s /\ horner 0 (compute_indices k s) s = k.
@@ -253,6 +283,33 @@ Proof.
   split; [apply Z.div_pos; lia | apply Z.div_lt_upper_bound; lia].
 Qed.
 
+(* every valid NumPy axis, negative included *)
+Lemma repeat_axis_full s r a i : pos s -> 1 <= r -> - zlen s <= a < zlen s ->
+  exists k, np_axis a (zlen s) = Some k
+  /\ shape_repeat_axis s r a = Val (set_nth k (nth k s 0 * r) s)
+  /\ np_repeat_axis_shape s r a = Some (set_nth k (nth k s 0 * r) s)
+  /\ (inb i (set_nth k (nth k s 0 * r) s) ->
+      np_repeat_axis_index i r a = Some (repeat_axis_index i r a) /\ inb (repeat_axis_index i r a) s).
+Proof.
+  intros Hp Hr Ha. destruct (wrap_axis_np a (zlen s) Ha) as [k [Hk [Hw Hlt]]]. exists k.
+  assert (Hkl : (k < length s)%nat) by (unfold zlen in Hlt; lia).
+  split; [assumption|].
+  destruct (set_neg_norm s a (at_neg s a * r) k Ha Hk) as [E1 [E2 _]].
+  split; [|split].
+  - unfold shape_repeat_axis, in_range, neg_pos.
+    replace ((0 <=? (if a <? 0 then zlen s + a else a)) && ((if a <? 0 then zlen s + a else a) <? zlen s)) with true
+      by (destruct (a <? 0) eqn:E; lia).
+    now rewrite E1, E2.
+  - unfold np_repeat_axis_shape. now rewrite Hk.
+  - intros Hi.
+    assert (Hl : zlen i = zlen s) by (rewrite (zlen_inb _ _ Hi); unfold zlen; now rewrite set_nth_length).
+    assert (Hli : (k < length i)%nat) by (unfold zlen in Hl; lia).
+    unfold repeat_axis_index, np_repeat_axis_index. rewrite Hl, Hk, Hw. rewrite map_at_k by assumption.
+    split; [reflexivity|]. apply (inb_set_nth_change i s k _ _ Hkl Hi).
+    pose proof (inb_set_nth_bound _ _ _ _ Hkl Hi) as Hb.
+    split; [apply Z.div_pos; lia | apply Z.div_lt_upper_bound; lia].
+Qed.
+
 Lemma repeat_axis_shape_spec s r a : 0 <= a < zlen s ->
   shape_repeat_axis s r a = Val (set_nth (Z.to_nat a) (nth (Z.to_nat a) s 0 * r) s)
   /\ np_repeat_axis_shape s r a = Some (set_nth (Z.to_nat a) (nth (Z.to_nat a) s 0 * r) s).
@@ -266,14 +323,8 @@ Lemma repeat_axis_elem_spec s r a i : pos s -> 1 <= r -> 0 <= a < zlen s ->
   inb i (set_nth (Z.to_nat a) (nth (Z.to_nat a) s 0 * r) s) ->
   np_repeat_axis_index i r a = Some (repeat_axis_index i r a) /\ inb (repeat_axis_index i r a) s.
 Proof.
-  intros Hp Hr Ha Hi. set (k := Z.to_nat a) in *.
-  assert (Hk : (k < length s)%nat) by (unfold zlen in Ha; lia).
-  assert (Hl : zlen i = zlen s) by (rewrite (zlen_inb _ _ Hi); unfold zlen; now rewrite set_nth_length).
-  unfold repeat_axis_index, np_repeat_axis_index. rewrite np_axis_nonneg by lia.
-  rewrite map_at_spec by lia. rewrite Z.sub_0_r. fold k. split; [reflexivity|].
-  apply (inb_set_nth_change i s k _ _ Hk Hi).
-  pose proof (inb_set_nth_bound _ _ _ _ Hk Hi) as Hb.
-  split; [apply Z.div_pos; lia | apply Z.div_lt_upper_bound; lia].
+  intros Hp Hr Ha Hi. destruct (repeat_axis_full s r a i Hp Hr ltac:(lia)) as [k [Hk [_ [_ H]]]].
+  rewrite (np_axis_nonneg_inv _ _ _ Ha Hk) in H. now apply H.
 Qed.
 
 (* ------------------------------------------------------------------------------------------ *)
@@ -397,28 +448,89 @@ Proof.
   intros HF Hx. rewrite Forall_forall in HF. apply HF. unfold znth. apply nth_In. unfold zlen in Hx. lia.
 Qed.
 
+Lemma take_entry_np e n : - n <= e < n -> n <= 2 ^ 64 ->
+  np_wrap_index n e = Some (take_entry e n) /\ 0 <= take_entry e n < n.
+Proof.
+  intros He Hn. unfold np_wrap_index, take_entry. destruct (Z.lt_ge_cases e 0).
+  - replace (e <? 0) with true by lia. rewrite wrap_small by lia.
+    replace ((0 <=? e) && (e <? n)) with false by lia. cbn [andb]. replace (- n <=? e) with true by lia.
+    split; [reflexivity | lia].
+  - replace (e <? 0) with false by lia. rewrite wrap_small by lia.
+    replace ((0 <=? e) && (e <? n)) with true by lia. split; [reflexivity | lia].
+Qed.
+
+Lemma take_at_none ind s : forall i c axis, axis < c -> length i = length s -> take_at c axis ind s i = i.
+Proof.
+  induction s as [|n s IH]; intros [|x i] c axis H Hl; simpl in Hl; try lia; [reflexivity|].
+  cbn [take_at]. replace (c =? axis) with false by lia. now rewrite IH by lia.
+Qed.
+
+Lemma take_at_spec ind s : forall i c axis, 0 <= axis - c < zlen s -> length i = length s ->
+  take_at c axis ind s i =
+  set_nth (Z.to_nat (axis - c))
+    (take_entry (znth ind (nth (Z.to_nat (axis - c)) i 0)) (nth (Z.to_nat (axis - c)) s 0)) i.
+Proof.
+  induction s as [|n s IH]; intros [|x i] c axis H Hl; unfold zlen in H; simpl in H, Hl; try lia.
+  cbn [take_at]. destruct (Z.eqb_spec c axis) as [->|Hne].
+  - rewrite Z.sub_diag. cbn. now rewrite take_at_none by lia.
+  - replace (Z.to_nat (axis - c)) with (S (Z.to_nat (axis - (c + 1)))) by lia.
+    rewrite set_nth_S. cbn [nth]. rewrite IH; [reflexivity | unfold zlen; lia | lia].
+Qed.
+
+(* every valid NumPy axis and every valid NumPy entry (negative ones counted from the end) *)
+Lemma take_axis_full s ind a i : - zlen s <= a < zlen s ->
+  exists k, np_axis a (zlen s) = Some k
+  /\ shape_take_axis s ind a = set_nth k (zlen ind) s
+  /\ np_take_axis_shape s ind a = Some (set_nth k (zlen ind) s)
+  /\ (Forall (fun x => - nth k s 0 <= x < nth k s 0) ind -> nth k s 0 <= 2 ^ 64 ->
+      inb i (set_nth k (zlen ind) s) ->
+      np_take_axis_index s ind i a = Some (take_axis_index s ind i a) /\ inb (take_axis_index s ind i a) s).
+Proof.
+  intros Ha. destruct (wrap_axis_np a (zlen s) Ha) as [k [Hk [Hw Hlt]]]. exists k.
+  assert (Hkl : (k < length s)%nat) by (unfold zlen in Hlt; lia).
+  split; [assumption|]. split; [|split].
+  - unfold shape_take_axis. rewrite Hw. now rewrite map_at_k.
+  - unfold np_take_axis_shape. now rewrite Hk.
+  - intros HF Hn Hi.
+    assert (Hl : length i = length s) by (rewrite (inb_length _ _ Hi); now apply set_nth_length).
+    pose proof (inb_set_nth_bound _ _ _ _ Hkl Hi) as Hb.
+    pose proof (znth_Forall _ _ _ HF Hb) as Hx. cbv beta in Hx.
+    destruct (take_entry_np _ _ Hx Hn) as [E Hr].
+    unfold take_axis_index, np_take_axis_index. rewrite Hk, Hw, E.
+    rewrite take_at_spec by (rewrite ?Z.sub_0_r; auto; lia). rewrite Z.sub_0_r, Nat2Z.id.
+    split; [reflexivity|]. now apply (inb_set_nth_change i s k _ _ Hkl Hi).
+Qed.
+
 Lemma take_axis_shape_spec s ind a : 0 <= a < zlen s ->
   shape_take_axis s ind a = set_nth (Z.to_nat a) (zlen ind) s
   /\ np_take_axis_shape s ind a = Some (set_nth (Z.to_nat a) (zlen ind) s).
 Proof.
-  intros Ha. unfold shape_take_axis, np_take_axis_shape. rewrite np_axis_nonneg by assumption.
-  rewrite map_at_spec by lia. now rewrite Z.sub_0_r.
+  intros Ha. destruct (take_axis_full s ind a [] ltac:(lia)) as [k [Hk [H1 [H2 _]]]].
+  rewrite (np_axis_nonneg_inv _ _ _ Ha Hk) in *. now split.
 Qed.
 
 Lemma take_axis_elem_spec s ind a i : 0 <= a < zlen s ->
   Forall (fun x => 0 <= x < nth (Z.to_nat a) s 0) ind -> nth (Z.to_nat a) s 0 <= 2 ^ 64 ->
   inb i (set_nth (Z.to_nat a) (zlen ind) s) ->
-  np_take_axis_index s ind i a = Some (take_axis_index ind i a) /\ inb (take_axis_index ind i a) s.
+  np_take_axis_index s ind i a = Some (take_axis_index s ind i a) /\ inb (take_axis_index s ind i a) s.
 Proof.
-  intros Ha HF Hw Hi. set (k := Z.to_nat a) in *.
-  assert (Hk : (k < length s)%nat) by (unfold zlen in Ha; lia).
-  assert (Hl : zlen i = zlen s) by (rewrite (zlen_inb _ _ Hi); unfold zlen; now rewrite set_nth_length).
-  pose proof (inb_set_nth_bound _ _ _ _ Hk Hi) as Hb.
-  pose proof (znth_Forall _ _ _ HF Hb) as Hx. cbv beta in Hx.
-  unfold take_axis_index, np_take_axis_index. rewrite np_axis_nonneg by assumption. fold k.
-  rewrite map_at_spec by lia. rewrite Z.sub_0_r. fold k.
-  rewrite wrap_small by lia. rewrite np_wrap_index_in by assumption. split; [reflexivity|].
-  now apply (inb_set_nth_change i s k _ _ Hk Hi).
+  intros Ha HF Hw Hi. destruct (take_axis_full s ind a i ltac:(lia)) as [k [Hk [_ [_ H]]]].
+  rewrite (np_axis_nonneg_inv _ _ _ Ha Hk) in H. apply H; auto.
+  eapply Forall_impl; [|exact HF]. cbv beta. intros x Hx. lia.
+Qed.
+
+Lemma take_none_full s ind k : pos s -> prod s <= 2 ^ 64 -> Forall (fun x => - prod s <= x < prod s) ind ->
+  inb [k] (shape_take_none ind) ->
+  shape_take_none ind = np_take_none_shape ind
+  /\ inb (take_none_index s ind [k]) s
+  /\ np_take_none_flat s ind k = Some (horner 0 (take_none_index s ind [k]) s).
+Proof.
+  intros Hp Hw HF Hi. split; [reflexivity|]. unfold shape_take_none in Hi. inversion Hi; subst.
+  pose proof (znth_Forall _ _ _ HF ltac:(eassumption)) as Hx. cbv beta in Hx.
+  destruct (take_entry_np _ _ Hx Hw) as [E Hr].
+  unfold take_none_index, np_take_none_flat. cbn [hd]. rewrite product_eq_prod, E.
+  fold (compute_indices (take_entry (znth ind k) (prod s)) s). destruct (unrav_rank s _ Hp Hr) as [Hr1 Hr2].
+  split; [assumption|]. now rewrite Hr2.
 Qed.
 
 Lemma take_none_spec s ind k : pos s -> prod s <= 2 ^ 64 -> Forall (fun x => 0 <= x < prod s) ind ->
@@ -427,11 +539,8 @@ Lemma take_none_spec s ind k : pos s -> prod s <= 2 ^ 64 -> Forall (fun x => 0 <
   /\ inb (take_none_index s ind [k]) s
   /\ np_take_none_flat s ind k = Some (horner 0 (take_none_index s ind [k]) s).
 Proof.
-  intros Hp Hw HF Hi. split; [reflexivity|]. unfold shape_take_none in Hi. inversion Hi; subst.
-  pose proof (znth_Forall _ _ _ HF ltac:(eassumption)) as Hx. cbv beta in Hx.
-  unfold take_none_index, np_take_none_flat. cbn [hd]. rewrite wrap_small by lia.
-  fold (compute_indices (znth ind k) s). destruct (unrav_rank s _ Hp Hx) as [Hr1 Hr2].
-  split; [assumption|]. rewrite Hr2. now apply np_wrap_index_in.
+  intros Hp Hw HF Hi. apply take_none_full; auto.
+  eapply Forall_impl; [|exact HF]. cbv beta. intros x Hx. pose proof (prod_pos _ Hp). lia.
 Qed.
 
 (* ------------------------------------------------------------------------------------------ *)
@@ -471,41 +580,52 @@ Proof.
   - rewrite !set_nth_S in *. injection He as -> He. f_equal. apply IH; auto; lia.
 Qed.
 
-Lemma concat_axis_shape_spec a b axis d : 0 <= axis < zlen a ->
-  np_concat_axis_shape a b axis = Some d -> shape_concat_axis a b axis = Val d.
-Proof.
-  intros Ha H. unfold np_concat_axis_shape in H. rewrite np_axis_nonneg in H by assumption.
-  destruct (length a =? length b)%nat eqn:El; [|discriminate]. apply Nat.eqb_eq in El.
-  destruct (list_eqb _ _) eqn:Ee; [|discriminate]. apply list_eqb_eq in Ee. cbn [andb] in H. injection H as <-.
-  unfold shape_concat_axis. rewrite shape_concat_from_spec; rewrite ?Z.sub_0_r; auto; lia.
-Qed.
-
 Lemma firstn_all' {A} (l : list A) n : n = length l -> firstn n l = l.
 Proof. intros ->. apply firstn_all. Qed.
+
+Lemma znth_of_nat l k : znth l (Z.of_nat k) = nth k l 0.
+Proof. unfold znth. now rewrite Nat2Z.id. Qed.
+
+(* every valid NumPy axis, negative included *)
+Lemma concat_axis_full a b axis d i : - zlen a <= axis < zlen a ->
+  np_concat_axis_shape a b axis = Some d ->
+  shape_concat_axis a b axis = Val d
+  /\ (inb i d -> concat_axis_index a b i axis = np_concat_axis_index a i axis
+      /\ match concat_axis_index a b i axis with
+         | OpLeft j => inb j a | OpRight j => inb j b | OpNeither => False end).
+Proof.
+  intros Ha H. destruct (wrap_axis_np axis (zlen a) Ha) as [k [Hk [Hw Hlt]]].
+  assert (Hkl : (k < length a)%nat) by (unfold zlen in Hlt; lia).
+  unfold np_concat_axis_shape in H. rewrite Hk in H.
+  destruct (length a =? length b)%nat eqn:El; [|discriminate]. apply Nat.eqb_eq in El.
+  destruct (list_eqb _ _) eqn:Ee; [|discriminate]. apply list_eqb_eq in Ee. cbn [andb] in H. injection H as <-.
+  split.
+  - unfold shape_concat_axis. rewrite Hw.
+    rewrite shape_concat_from_spec; rewrite ?Z.sub_0_r, ?Nat2Z.id; auto; lia.
+  - intros Hi.
+    assert (Hli : length i = length a) by (rewrite (inb_length _ _ Hi); now apply set_nth_length).
+    pose proof (inb_set_nth_bound _ _ _ _ Hkl Hi) as Hb.
+    unfold concat_axis_index, np_concat_axis_index. rewrite Hk, Hw, !znth_of_nat.
+    destruct (Z.ltb_spec (nth k i 0) (nth k a 0)) as [Hlt'|Hge].
+    + rewrite firstn_all' by auto. split; [reflexivity|].
+      rewrite <- (set_nth_same i k) by lia. apply (inb_set_nth_change i a k _ _ Hkl Hi). lia.
+    + replace (nth k i 0 <? nth k b 0 + nth k a 0) with true by lia.
+      rewrite map_at_k by lia.
+      rewrite firstn_all' by (rewrite set_nth_length; lia). split; [reflexivity|].
+      rewrite (set_nth_change_both k _ a b Ee El Hkl) in Hi.
+      apply (inb_set_nth_change i b k _ _ ltac:(lia) Hi). lia.
+Qed.
+
+Lemma concat_axis_shape_spec a b axis d : 0 <= axis < zlen a ->
+  np_concat_axis_shape a b axis = Some d -> shape_concat_axis a b axis = Val d.
+Proof. intros Ha H. exact (proj1 (concat_axis_full a b axis d [] ltac:(lia) H)). Qed.
 
 Lemma concat_axis_elem_spec a b axis d i : 0 <= axis < zlen a ->
   np_concat_axis_shape a b axis = Some d -> inb i d ->
   concat_axis_index a b i axis = np_concat_axis_index a i axis
   /\ match concat_axis_index a b i axis with
      | OpLeft j => inb j a | OpRight j => inb j b | OpNeither => False end.
-Proof.
-  intros Ha H Hi. unfold np_concat_axis_shape in H. rewrite np_axis_nonneg in H by assumption.
-  destruct (length a =? length b)%nat eqn:El; [|discriminate]. apply Nat.eqb_eq in El.
-  destruct (list_eqb _ _) eqn:Ee; [|discriminate]. apply list_eqb_eq in Ee. cbn [andb] in H. injection H as <-.
-  set (k := Z.to_nat axis) in *. assert (Hk : (k < length a)%nat) by (unfold zlen in Ha; lia).
-  assert (Hli : length i = length a) by (rewrite (inb_length _ _ Hi); now apply set_nth_length).
-  pose proof (inb_set_nth_bound _ _ _ _ Hk Hi) as Hb.
-  unfold concat_axis_index, np_concat_axis_index. rewrite np_axis_nonneg by assumption. fold k.
-  rewrite !at_neg_nonneg by lia. fold k.
-  destruct (Z.ltb_spec (nth k i 0) (nth k a 0)) as [Hlt|Hge].
-  - rewrite firstn_all' by auto. split; [reflexivity|].
-    rewrite <- (set_nth_same i k) by lia. apply (inb_set_nth_change i a k _ _ Hk Hi). lia.
-  - replace (nth k i 0 <? nth k b 0 + nth k a 0) with true by lia.
-    rewrite map_at_spec by (unfold zlen in *; lia). rewrite Z.sub_0_r. fold k.
-    rewrite firstn_all' by (rewrite set_nth_length; lia). split; [reflexivity|].
-    rewrite (set_nth_change_both k _ a b Ee El Hk) in Hi.
-    apply (inb_set_nth_change i b k _ _ ltac:(lia) Hi). lia.
-Qed.
+Proof. intros Ha H Hi. exact (proj2 (concat_axis_full a b axis d i ltac:(lia) H) Hi). Qed.
 
 Lemma concat_none_spec a b k : pos a -> pos b -> inb [k] (shape_concat_none a b) ->
   shape_concat_none a b = np_concat_none_shape a b
@@ -637,16 +757,6 @@ Proof.
     f_equal. apply IH. lia.
 Qed.
 
-Lemma set_neg_norm l a v k : - zlen l <= a < zlen l -> np_axis a (zlen l) = Some k ->
-  set_neg l a v = set_nth k v l /\ at_neg l a = nth k l 0 /\ (k < length l)%nat.
-Proof.
-  intros Ha Hk. destruct (Z.ltb_spec a 0).
-  - rewrite np_axis_neg in Hk by lia. injection Hk as <-. rewrite set_neg_neg, at_neg_neg by lia.
-    repeat split. unfold zlen in *. lia.
-  - rewrite np_axis_nonneg in Hk by lia. injection Hk as <-. rewrite set_neg_nonneg, at_neg_nonneg by lia.
-    repeat split. unfold zlen in *. lia.
-Qed.
-
 Lemma inb_app_inv' i : forall s1 s2, inb i (s1 ++ s2) -> forall j t, i = j ++ t -> length j = length s1 ->
   inb j s1 /\ inb t s2.
 Proof.
@@ -720,26 +830,33 @@ Proof.
       split; [apply Z.div_pos; lia|]. apply Z.div_lt_upper_bound; [lia|]. nia.
 Qed.
 
-(* diagonal of a matrix, offset >= 0, axes (0,1) or (1,0) *)
-Lemma diagonal_2d_spec n1 n2 offset t : 1 <= n1 -> 1 <= n2 -> 0 <= offset ->
-  0 <= t < np_diag_len n1 n2 offset ->
+(* diagonal of a matrix (axes 0,1), ANY offset: NumPy's length (clamped at 0) and a[t - min(offset,0), t + max(offset,0)] *)
+Lemma diagonal_2d_spec n1 n2 offset t : 1 <= n1 -> 1 <= n2 ->
   shape_diagonal [n1; n2] offset 0 1 = Val [np_diag_len n1 n2 offset]
   /\ np_diagonal_shape [n1; n2] offset 0 1 = Some [np_diag_len n1 n2 offset]
-  /\ np_diagonal_index 2 [t] offset 0 1 = Some (diagonal_index 2 [t] offset 0 1)
-  /\ inb (diagonal_index 2 [t] offset 0 1) [n1; n2].
+  /\ (0 <= t < np_diag_len n1 n2 offset ->
+      np_diagonal_index 2 [t] offset 0 1 = Some (diagonal_index 2 [t] offset 0 1)
+      /\ inb (diagonal_index 2 [t] offset 0 1) [n1; n2]).
 Proof.
-  intros H1 H2 Ho Ht.
-  assert (Hlen : np_diag_len n1 n2 offset = Z.max 0 (Z.min n1 (n2 - offset)))
-    by (unfold np_diag_len; now replace (0 <=? offset) with true by lia).
-  rewrite Hlen in *.
-  split; [|split; [|split]].
-  - unfold shape_diagonal. cbn; change (Pos.to_nat 1) with 1%nat; cbv iota. destruct (Z.ltb_spec offset 0); [lia|].
-    destruct (Z.ltb_spec 0 offset).
-    + destruct (Z.ltb_spec n1 (n2 - offset)); do 2 f_equal; lia.
-    + destruct (Z.ltb_spec n1 n2); do 2 f_equal; lia.
-  - unfold np_diagonal_shape. cbn; change (Pos.to_nat 1) with 1%nat; cbv iota. now rewrite Hlen.
-  - unfold np_diagonal_index, diagonal_index. cbn; change (Pos.to_nat 1) with 1%nat; cbv iota. rewrite Z.min_r, Z.max_l by lia. now rewrite Z.sub_0_r.
-  - unfold diagonal_index. cbn; change (Pos.to_nat 1) with 1%nat; cbv iota. repeat constructor; lia.
+  intros H1 H2.
+  assert (Hlen : np_diag_len n1 n2 offset =
+     Z.max 0 (if 0 <=? offset then Z.min n1 (n2 - offset) else Z.min (n1 + offset) n2)) by reflexivity.
+  split; [|split].
+  - unfold shape_diagonal. cbn; change (Pos.to_nat 1) with 1%nat; cbv iota. rewrite Hlen.
+    destruct (Z.ltb_spec offset 0), (Z.ltb_spec 0 offset), (Z.leb_spec 0 offset); try lia.
+    + destruct (Z.ltb_spec (n1 + offset) n2) as [Hc|Hc];
+        [destruct (Z.ltb_spec (n1 + offset) 0) | destruct (Z.ltb_spec n2 0)]; do 2 f_equal; lia.
+    + destruct (Z.ltb_spec n1 (n2 - offset)) as [Hc|Hc];
+        [destruct (Z.ltb_spec n1 0) | destruct (Z.ltb_spec (n2 - offset) 0)]; do 2 f_equal; lia.
+    + destruct (Z.ltb_spec n1 n2) as [Hc|Hc];
+        [destruct (Z.ltb_spec n1 0) | destruct (Z.ltb_spec n2 0)]; do 2 f_equal; lia.
+  - unfold np_diagonal_shape. cbn; change (Pos.to_nat 1) with 1%nat; cbv iota. reflexivity.
+  - intros Ht. rewrite Hlen in Ht. split.
+    + unfold np_diagonal_index, diagonal_index. cbn; change (Pos.to_nat 1) with 1%nat; cbv iota.
+      destruct (Z.ltb_spec offset 0), (Z.ltb_spec 0 offset); do 3 f_equal; lia.
+    + unfold diagonal_index. cbn; change (Pos.to_nat 1) with 1%nat; cbv iota.
+      destruct (Z.ltb_spec offset 0), (Z.ltb_spec 0 offset), (Z.leb_spec 0 offset); try lia;
+        repeat constructor; lia.
 Qed.
 
 (* ------------------------------------------------------------------------------------------ *)
@@ -773,14 +890,58 @@ Proof.
   unfold zrange, zlen in *. apply in_zs in Hx. lia.
 Qed.
 
+(* every valid NumPy axis, negative included; condition no longer than the axis *)
+Lemma compress_axis_full s c a i : - zlen s <= a < zlen s ->
+  exists k, np_axis a (zlen s) = Some k
+  /\ shape_compress_axis s c a = set_nth k (zlen (np_true_positions c)) s
+  /\ np_take_axis_shape s (np_true_positions c) a = Some (set_nth k (zlen (np_true_positions c)) s)
+  /\ (zlen c <= nth k s 0 -> inb i (set_nth k (zlen (np_true_positions c)) s) ->
+      np_take_axis_index s (np_true_positions c) i a = Some (compress_axis_index c i a) /\ inb (compress_axis_index c i a) s).
+Proof.
+  intros Ha. destruct (wrap_axis_np a (zlen s) Ha) as [k [Hk [Hw Hlt]]]. exists k.
+  assert (Hkl : (k < length s)%nat) by (unfold zlen in Hlt; lia).
+  split; [assumption|]. split; [|split].
+  - unfold shape_compress_axis. rewrite nonzero_pos_spec, Hw. now rewrite map_at_k.
+  - unfold np_take_axis_shape. now rewrite Hk.
+  - intros Hc Hi.
+    assert (Hl : zlen i = zlen s) by (rewrite (zlen_inb _ _ Hi); unfold zlen; now rewrite set_nth_length).
+    pose proof (inb_set_nth_bound _ _ _ _ Hkl Hi) as Hb.
+    pose proof (znth_Forall _ _ _ (true_positions_bound c) Hb) as Hx. cbv beta in Hx.
+    unfold compress_axis_index, np_take_axis_index. rewrite nonzero_pos_spec, Hl, Hk, Hw.
+    rewrite np_wrap_index_in by lia. rewrite map_at_k by (unfold zlen in Hl; lia).
+    split; [reflexivity|]. apply (inb_set_nth_change i s k _ _ Hkl Hi). lia.
+Qed.
+
 Lemma compress_axis_spec s c a i : 0 <= a < zlen s -> zlen c <= nth (Z.to_nat a) s 0 -> nth (Z.to_nat a) s 0 <= 2 ^ 64 ->
   shape_compress_axis s c a = set_nth (Z.to_nat a) (zlen (np_true_positions c)) s
   /\ np_take_axis_shape s (np_true_positions c) a = Some (set_nth (Z.to_nat a) (zlen (np_true_positions c)) s)
   /\ (inb i (set_nth (Z.to_nat a) (zlen (np_true_positions c)) s) ->
       np_take_axis_index s (np_true_positions c) i a = Some (compress_axis_index c i a) /\ inb (compress_axis_index c i a) s).
 Proof.
-  intros Ha Hc Hw. unfold shape_compress_axis, compress_axis_index. rewrite nonzero_pos_spec.
-  destruct (take_axis_shape_spec s (np_true_positions c) a Ha) as [H1 H2]. split; [assumption|]. split; [assumption|].
-  intros Hi. apply take_axis_elem_spec; auto.
-  eapply Forall_impl; [|apply true_positions_bound]. cbv beta. intros x Hx. lia.
+  intros Ha Hc _. destruct (compress_axis_full s c a i ltac:(lia)) as [k [Hk [H1 [H2 H3]]]].
+  rewrite (np_axis_nonneg_inv _ _ _ Ha Hk) in *. split; [assumption|]. split; [assumption|]. now apply H3.
+Qed.
+
+(* ------------------------------------------------------------------------------------------ *)
+(* generators: arange count, linspace element                                                  *)
+
+Lemma arange_len_spec start stop p q : p <> 0 -> arange_len start stop p q = Val (np_arange_len start stop p q).
+Proof.
+  intros Hp. unfold arange_len, np_arange_len, ceil_div. replace (p =? 0) with false by lia.
+  set (num := (stop - start) * q).
+  destruct (Z.leb_spec (num * p) 0) as [Hle|Hgt]; f_equal.
+  - assert (0 <= - num / p) by (Z.div_mod_to_equations; nia). lia.
+  - assert (- num / p < 0) by (Z.div_mod_to_equations; nia). lia.
+Qed.
+
+(* as rationals: numerator/denominator pairs compared by cross multiplication *)
+Lemma linspace_elem_spec start stop num endpoint i : 1 <= num -> 0 <= i < num ->
+  let m := linspace_elem start stop num endpoint i in
+  let sp := np_linspace_elem start stop num endpoint i in
+  snd m <> 0 /\ snd sp <> 0 /\ fst m * snd sp = fst sp * snd m.
+Proof.
+  intros Hn Hi. unfold linspace_elem, np_linspace_elem.
+  destruct (Z.eqb_spec num 1) as [->|Hne].
+  - replace (i =? 0) with true by lia. cbn. lia.
+  - destruct (Z.eqb_spec i 0) as [->|Hi0]; destruct endpoint; cbn [fst snd]; repeat split; try lia; ring.
 Qed.
